@@ -109,7 +109,7 @@ static Case draw() {
     Case c;
     c.kind = rpick({6, 2, 3, 1, 1});
     int res = ri(0, 15);
-    gen::GCell g = gen::cellRes(res, {3, 5, 2, 1, 0, 0, 1});
+    gen::GCell g = gen::cellRes(res, {3, 5, 2, 1, 0, 0, 1, 1, 4});
     if (c.kind <= 1 && rpick({1, 1}) == 1) g.h = gen::pentagonAt(res, ri(0, 11));
     c.p = g.h;
     if (c.kind == 0) {
